@@ -10,8 +10,11 @@ import (
 	"strings"
 	"testing"
 
+	"github.com/relab/hotstuff"
 	"github.com/relab/hotstuff/twins"
 )
+
+func hotstuffID(x uint32) hotstuff.ID { return hotstuff.ID(x) }
 
 // TestVerifC18 (cli part): `hotstuff twins generate` writes exactly the announced number of
 // scenarios, in the generator's order, and they read back unchanged through twins.FromJSON.
@@ -221,8 +224,8 @@ func TestVerifC18(t *testing.T) {
 							if bad {
 								code = 1<<63 + code%1000
 							}
-							// Remaining() before the i-th call, had the scenarios been read from one source
-							evs[i] = fmt.Sprintf("(%s,EvScen %s)", gZ(int64(len(scens)-i)), gN(code))
+							// Remaining() before the i-th call of the generator behind the command
+							evs[i] = fmt.Sprintf("(%s,EvScen %s)", gZ(announced-int64(i)), gN(code))
 						}
 						v.Case(st, fmt.Sprintf("(%s,%s,%s,%s)", gNat(n), gNat(int(views)), shufTerm, gList(evs)), meta)
 					}
@@ -230,5 +233,244 @@ func TestVerifC18(t *testing.T) {
 			}
 		}
 	}
-	v.Close("cli: `twins generate` runs per (settings, views, shuffle); non-trivial = at least 2 options and 2 views")
+	c18CliPartial(v, dir, st)
+	c18CliRun(v, dir, st)
+	v.Close("cli: `twins generate` / `twins run` invocations per (settings, views, shuffle, --scenarios, input); non-trivial = at least 2 options and 2 views")
+}
+
+func c18CliReadAll(files []string) (scens []twins.Scenario, settings []twins.Settings, ok bool) {
+	ok = true
+	for _, fn := range files {
+		f, err := os.Open(fn)
+		if err != nil {
+			return nil, nil, false
+		}
+		src, err := twins.FromJSON(f)
+		_ = f.Close()
+		if err != nil {
+			return nil, nil, false
+		}
+		settings = append(settings, src.Settings())
+		cnt := src.Remaining()
+		for i := int64(0); i < cnt; i++ {
+			s, err := src.NextScenario()
+			if err != nil {
+				return scens, settings, false
+			}
+			scens = append(scens, s)
+		}
+	}
+	return
+}
+
+func c18CliCodes(scens []twins.Scenario, keys map[string]int, n int, views uint8, announced int64) string {
+	evs := make([]string, len(scens))
+	for i, s := range scens {
+		code, bad := uint64(0), len(s) != int(views)
+		for _, vw := range s {
+			idx, ok := keys[c18CliViewKey(vw)]
+			if !ok {
+				bad = true
+			}
+			code = code*uint64(n) + uint64(idx)
+		}
+		if bad {
+			code = 1<<63 + code%1000
+		}
+		evs[i] = fmt.Sprintf("(%s,EvScen %s)", gZ(announced-int64(i)), gN(code))
+	}
+	return gList(evs)
+}
+
+func c18CliQuiet(f func()) (panicMsg string) {
+	devnull, err := os.OpenFile(os.DevNull, os.O_WRONLY, 0)
+	if err == nil {
+		old := os.Stderr
+		os.Stderr = devnull
+		defer func() { os.Stderr = old; _ = devnull.Close() }()
+	}
+	defer func() {
+		if r := recover(); r != nil {
+			panicMsg = fmt.Sprint(r)
+		}
+	}()
+	f()
+	return ""
+}
+
+// `twins generate --scenarios m`: exactly min(m, announced) scenarios, the generator's first ones
+func c18CliPartial(v *verifOut, dir string, st *verifStream) {
+	run := 0
+	for _, c := range [][4]uint8{{2, 0, 2, 2}, {3, 0, 2, 2}, {3, 1, 2, 1}, {4, 1, 2, 1}, {2, 0, 1, 5}, {3, 0, 1, 3}} {
+		nn, nt, p, views := c[0], c[1], c[2], c[3]
+		keys, n := c18CliOptions(nn, nt, p)
+		settings := twins.Settings{NumNodes: nn, NumTwins: nt, Partitions: p, Views: views, Ticks: 10}
+		announced := twins.NewGenerator(c18CliNop{}, settings).Remaining()
+		for _, m := range []int64{1, 2, announced - 1, announced, announced + 1, announced + 9} {
+			if m < 1 {
+				continue
+			}
+			for _, shuf := range []bool{false, true} {
+				run++
+				seed := int64(0)
+				if shuf {
+					seed = 1000 + int64(run)
+				}
+				meta := map[string]any{"num_nodes": nn, "num_twins": nt, "partitions": p, "views": views, "shuffle": shuf, "seed": seed,
+					"announced": announced, "scenarios_flag": m}
+				dest := filepath.Join(dir, fmt.Sprintf("part%d.json", run))
+				numReplicas, numTwins, numPartitions, numViews = nn, nt, p, views
+				numScenarios, numScenariosPerFile, numTicks = uint64(m), 0, 10
+				shuffle, randSeed, twinsDest, twinsSrc = shuf, seed, dest, ""
+				msg := c18CliQuiet(twinsGenerate)
+				numScenarios = 0
+				v.Count("cli_generate_partial")
+				v.Seen(fmt.Sprintf("cli partial %v", meta), n >= 2, meta)
+				if msg != "" {
+					meta["panic"] = msg
+					v.Oracle(false, "cli.generate:panic", "`twins generate --scenarios m` panics", meta)
+					continue
+				}
+				scens, _, ok := c18CliReadAll([]string{dest})
+				v.Oracle(ok, "cli.generate:unreadable-output", "the written JSON cannot be read back", meta)
+				want := m
+				if announced < want {
+					want = announced
+				}
+				meta["written"] = len(scens)
+				v.Oracle(int64(len(scens)) == want, "cli.generate:scenarios-flag-not-honoured",
+					fmt.Sprintf("--scenarios %d with %d announced: %d written, expected %d", m, announced, len(scens), want), meta)
+				shufTerm := "None"
+				if shuf && n > 0 {
+					r := rand.New(rand.NewSource(seed))
+					perm := make([]int, n)
+					for i := range perm {
+						perm[i] = i
+					}
+					r.Shuffle(n, func(i, j int) { perm[i], perm[j] = perm[j], perm[i] })
+					offs := make([]int, views)
+					for i := range offs {
+						offs[i] = r.Intn(n)
+					}
+					shufTerm = fmt.Sprintf("(Some (%s,%s))", c18CliNats(perm), c18CliNats(offs))
+				}
+				v.Case(st, fmt.Sprintf("(%s,%s,%s,%s)", gNat(n), gNat(int(views)), shufTerm, c18CliCodes(scens, keys, n, views, announced)), meta)
+			}
+		}
+	}
+}
+
+// `twins run`: every scenario of the source is executed once, in order; with --log-all all of them are
+// written, without it exactly the scenarios whose execution diverged
+func c18CliRun(v *verifOut, dir string, st *verifStream) {
+	// (a) generator source, --log-all
+	for i, c := range [][4]uint8{{4, 0, 1, 2}, {4, 1, 2, 1}, {3, 0, 2, 1}} {
+		nn, nt, p, views := c[0], c[1], c[2], c[3]
+		keys, n := c18CliOptions(nn, nt, p)
+		settings := twins.Settings{NumNodes: nn, NumTwins: nt, Partitions: p, Views: views, Ticks: 4}
+		announced := twins.NewGenerator(c18CliNop{}, settings).Remaining()
+		meta := map[string]any{"num_nodes": nn, "num_twins": nt, "partitions": p, "views": views, "announced": announced, "mode": "run --log-all"}
+		dest := filepath.Join(dir, fmt.Sprintf("run%d.json", i))
+		numReplicas, numTwins, numPartitions, numViews = nn, nt, p, views
+		numScenarios, numScenariosPerFile, numTicks = 0, 0, 4
+		shuffle, randSeed, twinsDest, twinsSrc = false, 0, dest, ""
+		twinsConsensus, logAll, concurrency = "chainedhotstuff", true, 1
+		msg := c18CliQuiet(twinsRun)
+		numScenarios, logAll = 0, false
+		v.Count("cli_run_generator")
+		v.Seen(fmt.Sprintf("cli run %v", meta), true, meta)
+		if msg != "" {
+			meta["panic"] = msg
+			v.Oracle(false, "cli.run:panic", "`twins run` panics", meta)
+			continue
+		}
+		scens, _, ok := c18CliReadAll([]string{dest})
+		meta["written"] = len(scens)
+		v.Oracle(ok, "cli.run:unreadable-output", "the written JSON cannot be read back", meta)
+		v.Oracle(int64(len(scens)) == announced, "cli.run:executed-count-differs-from-announced",
+			fmt.Sprintf("%d scenarios announced, %d executed and logged by `twins run --log-all`", announced, len(scens)), meta)
+		v.Case(st, fmt.Sprintf("(%s,%s,None,%s)", gNat(n), gNat(int(views)), c18CliCodes(scens, keys, n, views, announced)), meta)
+	}
+
+	// (b) JSON source with safe and genuinely unsafe scenarios (two twin pairs split the network so that
+	// both halves hold a quorum of replica ids): only the unsafe ones are reported
+	r := func(id uint32) twins.NodeID { return twins.Replica(hotstuffID(id)) }
+	a := twins.NewNodeSet(r(1).Twin(1), r(2).Twin(1), r(3))
+	b := twins.NewNodeSet(r(1).Twin(2), r(2).Twin(2), r(4))
+	every := twins.NewNodeSet(r(1).Twin(1), r(2).Twin(1), r(3), r(1).Twin(2), r(2).Twin(2), r(4))
+	mk := func(split []bool) twins.Scenario {
+		var s twins.Scenario
+		for i, sp := range split {
+			if sp {
+				s = append(s, twins.View{Leader: hotstuffID(uint32(1 + i%2)), Partitions: []twins.NodeSet{a, b}})
+			} else {
+				s = append(s, twins.View{Leader: 3, Partitions: []twins.NodeSet{every, {}}})
+			}
+		}
+		return s
+	}
+	T, F := true, false
+	input := []twins.Scenario{
+		mk([]bool{F, F, F, F, F, F}),       // safe
+		mk([]bool{T, T, T, T, T, T}),       // diverges at position 0
+		mk([]bool{F, F, F, F, F, F}),       // safe
+		mk([]bool{F, F, F, F, T, T, T, T}), // common prefix, then diverges
+		mk([]bool{F, F}),                   // safe, nothing committed
+	}
+	unsafe := []bool{false, true, false, true, false}
+	settings := twins.Settings{NumNodes: 4, NumTwins: 2, Partitions: 2, Views: 8, Ticks: 120}
+	src := filepath.Join(dir, "run-input.json")
+	f, err := os.Create(src)
+	if err != nil {
+		v.Note("cannot create run input: " + err.Error())
+		return
+	}
+	wr, _ := twins.ToJSON(settings, f)
+	for _, s := range input {
+		_ = wr.WriteScenario(s)
+	}
+	_ = wr.Close()
+	_ = f.Close()
+	for _, all := range []bool{false, true} {
+		meta := map[string]any{"mode": "run --input", "log_all": all, "input_scenarios": len(input), "unsafe_input": unsafe}
+		dest := filepath.Join(dir, fmt.Sprintf("run-out-%v.json", all))
+		numScenarios, numScenariosPerFile = 0, 0
+		twinsDest, twinsSrc = dest, src
+		twinsConsensus, logAll, concurrency = "chainedhotstuff", all, 1
+		msg := c18CliQuiet(twinsRun)
+		numScenarios, logAll, twinsSrc = 0, false, ""
+		v.Count("cli_run_json")
+		v.Seen(fmt.Sprintf("cli run json %v", all), true, meta)
+		if msg != "" {
+			meta["panic"] = msg
+			v.Oracle(false, "cli.run:panic", "`twins run --input` panics", meta)
+			continue
+		}
+		out, sets, ok := c18CliReadAll([]string{dest})
+		v.Oracle(ok, "cli.run:unreadable-output", "the written JSON cannot be read back", meta)
+		v.Oracle(len(sets) == 1 && sets[0] == settings, "cli.run:settings-changed", "the settings of the input file are not those of the output file", meta)
+		var wantKeys, gotKeys []string
+		for i, s := range input {
+			if all || unsafe[i] {
+				wantKeys = append(wantKeys, c18CliScenKey(s))
+			}
+		}
+		for _, s := range out {
+			gotKeys = append(gotKeys, c18CliScenKey(s))
+		}
+		meta["reported"] = len(out)
+		fp, what := "cli.run:divergent-scenarios-not-reported-exactly", "`twins run` must write exactly the scenarios whose execution diverged"
+		if all {
+			fp, what = "cli.run:log-all-output-differs-from-input", "`twins run --log-all` must write every executed scenario, in order"
+		}
+		v.Oracle(strings.Join(gotKeys, ";") == strings.Join(wantKeys, ";"), fp, fmt.Sprintf("%s: %d written, %d expected", what, len(gotKeys), len(wantKeys)), meta)
+	}
+}
+
+func c18CliScenKey(s twins.Scenario) string {
+	ks := make([]string, len(s))
+	for i, vw := range s {
+		ks[i] = c18CliViewKey(vw)
+	}
+	return strings.Join(ks, "/")
 }
